@@ -56,7 +56,10 @@ def shrink(case):
 def run_case(case, ctx):
     o = sc.observe(case, ctx, second_run=False)
     fails = sc.oracle_c14(o)
-    r = sc.result(o, fails, [o.line1], [o.impl1])
+    model, impl = [o.line1], [o.impl1]
+    if case["opts"].get("parallel") and o.kind1 != "ok":
+        model, impl = [], []   # which jobs ran before the exception surfaced is up to the thread pool: oracle only
+    r = sc.result(o, fails, model, impl)
     if not (sc.file_pairs(o) or any(sc.doc_of(o.s0, a) and sc.doc_of(o.d0, b) for a, b in sc.doc_pairs(o))):
         r["key"] = None
     return r
